@@ -40,6 +40,10 @@ theorem Segment_eq_sound (l r : Seg) (h : Seg.eq l r = true) : (Seg.pack l).2 = 
     rw [pack_nonrs232 l hl, pack_nonrs232 r hr]
     simp only [Seg.packBase, h1, h2, h3, h4, h5]
 
+/-- non-vacuity: two RS-232 segments that differ in the (rebuilt, uncompared) `payload` compare equal -/
+example : Seg.eq { Seg.fresh .rs232 with block_status := 0xFFFF, sync_bytes := [1, 2], data := [9] }
+    { Seg.fresh .rs232 with block_status := 0xFFFF, sync_bytes := [1, 2], data := [9], payload := [7] } = true := by decide
+
 /-- the counterexample that existed before the `fix:` commit (an ACQ segment comparing equal to a
     never-packed RS-232 segment) is now unequal -/
 example : Seg.eq (Seg.fresh .acq) { Seg.fresh .rs232 with data := [1] } = false := by decide
@@ -99,6 +103,9 @@ theorem NPD_eq_sound (a b : State) (h : eq a b = true) : (pack a).2 = (pack b).2
           simp only
           cases b.datatype <;> cases b.timestamp <;> simp only
           split <;> rfl
+
+example : eq { fresh with datatype := some 0xD0, segments := [{ Seg.fresh .base with payload := [1, 2, 3, 4] }] }
+    { fresh with datatype := some 0xD0, segments := [{ Seg.fresh .base with payload := [1, 2, 3, 4] }] } = true := by decide
 
 /-- the object decoded from a's encoding compares equal to a as `pack` left it (data types whose segment
     class is not RS232Segment; the segments are of the class the data type dictates — equality is
@@ -178,5 +185,20 @@ example : NPD_WF { fresh with datatype := some 0x50, mcastaddr := some 0xEB00000
     refine ⟨by decide, by decide, by decide, by decide, fun _ => ⟨by decide, by decide⟩, fun h => absurd rfl h⟩
   · decide
 example : kindOf 0x50 = .rs232 := rfl
+
+/-- non-vacuity of `NPD_eq_decode`: data type 1 (plain `NPDSegment`), one raw segment of six bytes -/
+example :
+    let a : State := { fresh with datatype := some 0x01, mcastaddr := some 0xEB000001, timestamp := some 7,
+                                  segments := [C01.rawSeg 1 2 3 [0, 5, 1, 2, 9, 9]] }
+    NPD_WF a 0x01 0xEB000001 7 ∧ (∀ g ∈ a.segments, TypedOK (kindOf 0x01) g) ∧ kindOf 0x01 ≠ .rs232 ∧
+    (∀ g ∈ a.segments, g.kind = kindOf 0x01) := by
+  refine ⟨?_, ?_, by decide, ?_⟩
+  · refine ⟨by simp [fresh, NPD_VERSION], rfl, rfl, by omega, by simp [fresh], by simp [fresh], by simp [fresh],
+      by simp [fresh], rfl, by omega, rfl, by omega, ?_, ?_⟩
+    · intro g hg; simp at hg; subst hg; exact C01.rawSeg_WF 1 2 3 _ (by omega) (by omega) (by omega) (by simp)
+    · simp [segBytes_length, effPayload, C01.rawSeg, Seg.fresh]
+  · intro g hg; simp at hg; subst hg; rfl
+  · intro g hg; simp at hg; subst hg; rfl
+
 
 end Acra.Props.C14
